@@ -56,9 +56,27 @@ class _Collector:
         self.nontrivial = 0
         self.fails = {}
         self.samples = []
+        # key -> {order: case} for EVERY failing case of the key (the `also` list of tools/BOUNDED_GUIDE.md);
+        # only the ALSO_CAP lowest orders are kept
+        self.also = {}
+
+    ALSO_CAP = 300
+
+    def _also_add(self, key, items):
+        d = self.also.setdefault(key, {})
+        for order, case in items:
+            d.setdefault(order, case)
+        if len(d) > 4 * self.ALSO_CAP:
+            for order in sorted(d)[self.ALSO_CAP:]:
+                del d[order]
+
+    def _also_list(self, key):
+        d = self.also.get(key, {})
+        return [(order, d[order]) for order in sorted(d)[:self.ALSO_CAP]]
 
     def fail(self, order, fid, clause, detail, case, replay_fn):
         key = (fid, clause)
+        self._also_add(key, [(order, {'clause': clause, 'fid': fid, 'input': case})])
         cur = self.fails.get(key)
         if cur is None or order < cur[0]:
             self.fails[key] = (order, {
@@ -73,16 +91,19 @@ class _Collector:
             cur = self.fails.get(key)
             if cur is None or order < cur[0]:
                 self.fails[key] = (order, f)
+        for key, items in other.get('also', {}).items():
+            self._also_add(key, items)
         for s in other['samples']:
             if len(self.samples) < 3 and s not in self.samples:
                 self.samples.append(s)
 
     def export(self):
         return {'cases': self.cases, 'nontrivial': self.nontrivial, 'fails': self.fails,
-                'samples': self.samples}
+                'samples': self.samples, 'also': {key: self._also_list(key) for key in self.also}}
 
     def result(self, bound):
-        fails = [f for _, (o, f) in sorted(self.fails.items(), key=lambda kv: (kv[1][0], kv[0]))]
+        fails = [dict(f, also=[case for _, case in self._also_list(key)] or [f['case']])
+                 for key, (o, f) in sorted(self.fails.items(), key=lambda kv: (kv[1][0], kv[0]))]
         return {'cases': self.cases, 'nontrivial': self.nontrivial, 'bound': bound,
                 'samples': self.samples[:3], 'fails': fails}
 
